@@ -8,7 +8,7 @@ sys.path.insert(0, os.path.dirname(os.path.abspath(__file__)))
 from _basic import vec, toks  # noqa
 
 PROPS = ["C01", "C03", "C07", "C08", "C09", "C10", "C11", "C16", "C17", "C18"]
-NEEDS = ["verif_support", "verif_paccess", "verif_isupport"]
+NEEDS = ["verif_support", "verif_paccess", "verif_raccess", "verif_isupport"]
 
 HEADER = """use super::*;
 #[allow(unused_imports)]
@@ -32,6 +32,10 @@ def L(n, text, who="i"):
 
 def IMM(text, who="i"):
     return "immediate(&mut %s, %s)" % (who, vec(text))
+
+
+def IMMS(text, who="i"):
+    return "immediate_stmt(&mut %s, %s)" % (who, vec(text))
 
 
 def idx(prefix):
@@ -368,6 +372,658 @@ S("c03_error_line_type_mismatch", ["C03", "C01"], "quick",
     assert!(st(&i) == ST_IDLE && num(&i, "X") == 1.0 && !has_var(&i, "Y"));
     kani::cover!(true, "reached_end");
 """)
+# ------------------------------------------------------------------------------------------------
+# shared dirty pre-state (C10, C11, C07): suspended in the middle of a program
+# ------------------------------------------------------------------------------------------------
+DIRTY_PROGRAM = f"""
+    let mut i = Interpreter::default();
+    {L(5, "DATA 11, 22, 33")}
+    {L(10, "X = X + 1")}
+    {L(20, "Y = 7")}
+    {L(30, "END")}
+"""
+
+DIRTY_STATE = """
+    i.program.run_from_first_numbered_line();
+    set_num(&mut i, "X", 5.0);
+    let r0 = i.arrays.set_value_at_index(&sym("A"), &vec![2], Value::Number(9.0));
+    kani::assume(r0.is_ok());
+    core::mem::forget(r0);
+    pa::push_frames(&mut i.program, 2, 10);
+    pa::push_loop(&mut i.program, "I", 10, 0, 3.0, 1.0);
+    pa::add_function(&mut i.program, "FNA", "Q", 10, 2);
+    let d0 = i.program.next_data_element();     // data cursor now past the first item
+    core::mem::forget(d0);
+"""
+
+# ------------------------------------------------------------------------------------------------
+# C10
+# ------------------------------------------------------------------------------------------------
+S("c10_run_resets_everything", ["C10"], "quick",
+  "RUN (through the real text-level command) from a dirty session: variables, arrays, loops, frames, functions, data cursor, breakpoint and a pending reply are all reset; the random state is kept; execution starts at the first line",
+  "program 5 DATA.. / 10 X = X + 1 / 20.. ; state: X=5, array A, 2 frames, loop I, FNA defined, data cursor advanced, breakpoint at line 20, reply '7' pending, seed any u64; then RUN",
+  DIRTY_PROGRAM + DIRTY_STATE + f"""
+    let seed: u64 = kani::any();
+    i.randomize(seed);
+    pa::set_breakpoint(&mut i.program, 20, 0);
+    i.program.set_and_goto_immediate_line(vec![]);
+    i.input = Some(String::from("7"));
+    i.state = InterpreterState::Idle;
+    assert!(cmd(&mut i, "RUN").is_none(), "c10: RUN must not fail");
+    // RUN executed the first statement (the DATA line is a no-op) and moved to line 10
+    assert!(st(&i) == ST_RUNNING && pa::at(&i.program, 10, 0), "c10: RUN starts at the first line");
+    assert!(!has_var(&i, "X"), "c10: variables are cleared by RUN");
+    assert!(!has_array(&i, "A"), "c10: arrays are cleared by RUN");
+    assert!(pa::stack_len(&i.program) == 0, "c10: subroutine stack is cleared by RUN");
+    assert!(pa::loop_len(&i.program) == 0, "c10: open loops are cleared by RUN");
+    assert!(pa::functions_len(&i.program) == 0, "c10: defined functions are cleared by RUN");
+    assert!(!pa::data_iterator_started(&i.program), "c10: the data cursor is reset by RUN");
+    assert!(pa::breakpoint(&i.program).is_none(), "c10: a pending breakpoint is cleared by RUN");
+    assert!(!pending_input(&i), "c10: an unconsumed input reply is discarded by RUN");
+    assert!(rng_seed(&i) == seed, "c10: RUN keeps the random-number state");
+    kani::cover!(true, "reached_end");
+""", unwind=16, timeout=1200, mem=8000, cost=200)
+
+S("c10_run_then_first_statement_as_fresh", ["C10"], "quick",
+  "after RUN from a dirty session the first statements behave as in a fresh interpreter (X = X + 1 gives 1, READ gives the first item)",
+  "dirty state as above (token-level RUN); 10 X = X + 1 ; then immediate-free continuation: 20 READ D",
+  f"""
+    let mut i = Interpreter::default();
+    {L(5, "DATA 11, 22, 33")}
+    {L(10, "X = X + 1")}
+    {L(20, "READ D")}
+""" + DIRTY_STATE + f"""
+    pa::set_breakpoint(&mut i.program, 20, 0);
+    i.program.set_and_goto_immediate_line(vec![]);
+    i.state = InterpreterState::Idle;
+    assert!(run_tok(&mut i).is_none());      // DATA
+    assert!(turn(&mut i).is_none());          // X = X + 1
+    assert!(num(&i, "X") == 1.0, "c10: X starts from 0 again after RUN");
+    assert!(turn(&mut i).is_none());          // READ D
+    assert!(num(&i, "D") == 11.0, "c10: READ starts from the first DATA item after RUN");
+    assert!(st(&i) == ST_IDLE);
+    kani::cover!(true, "reached_end");
+""", unwind=16)
+
+# ------------------------------------------------------------------------------------------------
+# C11
+# ------------------------------------------------------------------------------------------------
+def c11(name, edit_line, edit_text, what, first_item):
+    S(name, ["C11"], "quick",
+      "after a successful edit (%s) of a suspended program: CONT -> CAN'T CONTINUE, RETURN -> RETURN WITHOUT GOSUB, NEXT -> NEXT WITHOUT FOR, functions gone, READ restarts from the first DATA item of the edited program, variables and arrays kept; no probe panics" % what,
+      "dirty state (breakpoint at 20, 2 frames, loop I, FNA, data cursor advanced, X=5, A(2)=9); edit: line %s := [%s]; probes CONT, RETURN, NEXT I, READ" % (edit_line, edit_text),
+      DIRTY_PROGRAM + DIRTY_STATE + f"""
+    pa::set_breakpoint(&mut i.program, 20, 0);
+    i.program.set_and_goto_immediate_line(vec![]);
+    i.state = InterpreterState::Idle;
+    {L(edit_line, edit_text)}
+    assert!(pa::breakpoint(&i.program).is_none() && pa::stack_len(&i.program) == 0 && pa::loop_len(&i.program) == 0
+        && pa::functions_len(&i.program) == 0 && !pa::data_iterator_started(&i.program) && pa::at_immediate(&i.program),
+        "c11: an edit drops breakpoint, frames, loops, functions and the data cursor");
+    let c = i.program.continue_from_breakpoint();
+    assert!(matches!(&c, Err(e) if err_code(&e.error) == E_CONT), "c11: CONT after an edit is CAN'T CONTINUE");
+    core::mem::forget(c);
+    assert!({IMM("RETURN")} == Some(E_RETURN), "c11: RETURN after an edit is RETURN WITHOUT GOSUB");
+    assert!({IMM("NEXT I")} == Some(E_NEXT), "c11: NEXT after an edit is NEXT WITHOUT FOR");
+    assert!({IMM("READ D")}.is_none(), "c11: READ after an edit must work");
+    assert!(num(&i, "D") == {first_item}, "c11: READ restarts from the first DATA item of the edited program");
+    assert!(num(&i, "X") == 5.0 && has_array(&i, "A"), "c11: variables and arrays survive an edit");
+    assert!(cell(&mut i, "A", 2) == 9.0, "c11: array contents survive an edit");
+    kani::cover!(true, "reached_end");
+""", unwind=16, timeout=1200, mem=8000, cost=150)
+
+c11("c11_edit_replace_existing", 20, "Z = 1", "replace line 20", "11.0")
+c11("c11_edit_add_new", 15, "Z = 1", "add line 15", "11.0")
+c11("c11_edit_delete", 20, "", "delete line 20", "11.0")
+c11("c11_edit_data_line", 5, "DATA 44", "replace the DATA line", "44.0")
+
+S("c11_goto_deleted_line_is_error", ["C11", "C01"], "quick",
+  "after deleting a line, nothing dereferences it: GOTO to it is UNDEF'D STATEMENT (no panic in the line lookup)",
+  "lines 0,10; delete 0; immediate GOTO 0",
+  f"""
+    let mut i = Interpreter::default();
+    {L(0, "END")}
+    {L(10, "X = 1")}
+    {L(0, "")}
+    assert!({IMM("GOTO 0")} == Some(E_UNDEF), "c11: jumping to a deleted line is UNDEF'D STATEMENT");
+    assert!(st(&i) == ST_IDLE);
+    kani::cover!(true, "reached_end");
+""")
+
+# ------------------------------------------------------------------------------------------------
+# C07
+# ------------------------------------------------------------------------------------------------
+S("c07_break_cont_roundtrip", ["C07"], "quick",
+  "break then CONT restores the exact location and leaves frames, loops, data cursor, variables untouched; BREAK names the line",
+  "dirty state, running at line 20 token t (t any <= 3); break_at_current_location; continue_from_breakpoint",
+  DIRTY_PROGRAM + DIRTY_STATE + f"""
+    let t: usize = kani::any();
+    kani::assume(t <= 3);
+    resume_at(&mut i, 20, t);
+    i.break_at_current_location();
+    assert!(st(&i) == ST_IDLE, "c07: break returns to idle");
+    assert!(out_len(&i) == 1 && out_kind(&i, 0) == O_BREAK, "c07: one BREAK notice");
+    assert!(matches!(&i.output[0], InterpreterOutput::Break(Some(20))), "c07: BREAK names the interrupted line");
+    assert!(pa::at_immediate(&i.program), "c07: at a breakpoint the interpreter is in immediate mode");
+    let c = i.program.continue_from_breakpoint();
+    assert!(c.is_ok(), "c07: CONT after a break must work");
+    core::mem::forget(c);
+    assert!(pa::at(&i.program, 20, t), "c07: CONT resumes exactly where the break happened");
+    assert!(pa::breakpoint(&i.program).is_none());
+    assert!(pa::stack_len(&i.program) == 2 && pa::loop_len(&i.program) == 1 && pa::functions_len(&i.program) == 1
+        && pa::data_iterator_started(&i.program), "c07: frames, loops, functions and data cursor survive break/CONT");
+    assert!(num(&i, "X") == 5.0);
+    kani::cover!(t == 3, "reached_mid_line");
+""", unwind=16)
+
+S("c07_inspect_at_breakpoint", ["C07"], "quick",
+  "a non-assigning immediate statement at a breakpoint (PRINT X) leaves the continuation intact",
+  "dirty state, break at (20,0); immediate PRINT X; then CONT",
+  DIRTY_PROGRAM + DIRTY_STATE + f"""
+    resume_at(&mut i, 20, 0);
+    i.break_at_current_location();
+    assert!({IMM("PRINT X")}.is_none(), "c07: PRINT at a breakpoint must work");
+    assert!(st(&i) == ST_IDLE);
+    assert!(pa::breakpoint(&i.program).is_some(), "c07: inspecting does not discard the breakpoint");
+    assert!(pa::stack_len(&i.program) == 2 && pa::loop_len(&i.program) == 1 && pa::data_iterator_started(&i.program),
+        "c07: inspecting at a breakpoint keeps frames, loops and data cursor");
+    let c = i.program.continue_from_breakpoint();
+    assert!(c.is_ok());
+    core::mem::forget(c);
+    assert!(pa::at(&i.program, 20, 0) && pa::stack_len(&i.program) == 2, "c07: CONT resumes the interrupted program");
+    kani::cover!(true, "reached_end");
+""", unwind=16)
+
+S("c07_failing_inspect_at_breakpoint", ["C07", "C01"], "quick",
+  "an immediate statement that fails at a breakpoint (X = 1 / 0) does not change the continuation",
+  "dirty state, break at (20,0); immediate X = 1 / 0 (fails); then CONT",
+  DIRTY_PROGRAM + DIRTY_STATE + f"""
+    resume_at(&mut i, 20, 0);
+    i.break_at_current_location();
+    assert!({IMMS("X = 1 / 0")} == Some(E_DIVZERO), "c07: the inspection statement fails");
+    assert!(st(&i) == ST_IDLE, "c01: idle after an error");
+    assert!(pa::breakpoint(&i.program).is_some(), "c07: a failing inspection does not discard the breakpoint");
+    assert!(pa::stack_len(&i.program) == 2 && pa::loop_len(&i.program) == 1, "c07: a failing inspection keeps frames and loops");
+    assert!(num(&i, "X") == 5.0, "c07: a failing assignment assigns nothing");
+    let c = i.program.continue_from_breakpoint();
+    assert!(c.is_ok());
+    core::mem::forget(c);
+    assert!(pa::at(&i.program, 20, 0));
+    kani::cover!(true, "reached_end");
+""", unwind=16)
+
+S("c07_failing_fn_call_at_breakpoint", ["C07", "C16"], "quick",
+  "a user-function call that fails at a breakpoint leaves no frame (and no parameter binding) behind; the error names the function body's line",
+  "5 DEF FNB(Q) = 1 / 0 registered; breakpoint pending with 2 frames; expression FNB(1) evaluated in immediate mode fails; frames must still be 2",
+  f"""
+    let mut i = Interpreter::default();
+    {L(5, "DEF FNB(Q) = 1 / 0")}
+    {L(20, "Y = 7")}
+    i.program.run_from_first_numbered_line();
+    pa::add_function(&mut i.program, "FNB", "Q", 5, {idx("DEF FNB(Q) =")});
+    pa::push_frames(&mut i.program, 2, 20);
+    resume_at(&mut i, 20, 0);
+    i.break_at_current_location();
+    i.program.set_and_goto_immediate_line({vec("FNB(1)")});
+    let res = i.evaluate_expression();
+    match &res {{
+        Err(e) => assert!(err_code(&e.error) == E_DIVZERO, "c07: the function body fails with DIVISION BY ZERO"),
+        Ok(_) => panic!("c07: 1/0 must fail"),
+    }}
+    assert!(pa::stack_len(&i.program) == 2, "c07 failing-fn: a failed function call must not leave its frame on the stack");
+    assert!(pa::at_immediate(&i.program), "c07 failing-fn: after the failed call the cursor is back in the calling (immediate) line");
+    assert!(pa::breakpoint(&i.program).is_some());
+    core::mem::forget(res);
+    kani::cover!(true, "reached_end");
+""", unwind=16)
+S("c07_assign_at_breakpoint", ["C07"], "quick",
+  "assigning at a breakpoint changes exactly that variable; CONT resumes where the program stopped",
+  "dirty state, break at (20,0); immediate X = v (v any non-NaN); CONT",
+  DIRTY_PROGRAM + DIRTY_STATE + f"""
+    let v: f64 = kani::any();
+    kani::assume(!v.is_nan());
+    resume_at(&mut i, 20, 0);
+    i.break_at_current_location();
+    assert!({IMM("X = #v")}.is_none());
+    assert!(num(&i, "X") == v && has_array(&i, "A"), "c07: the assignment takes effect, nothing else changes");
+    let c = i.program.continue_from_breakpoint();
+    assert!(c.is_ok());
+    core::mem::forget(c);
+    assert!(pa::at(&i.program, 20, 0) && pa::stack_len(&i.program) == 2 && pa::loop_len(&i.program) == 1);
+    kani::cover!(true, "reached_end");
+""", unwind=16)
+
+S("c07_stop_statement_is_break", ["C07"], "quick",
+  "STOP behaves as a host break at the statement after it: BREAK IN line, idle, CONT continues after the STOP",
+  "10 X = 1 : STOP : Y = 2",
+  f"""
+    let mut i = Interpreter::default();
+    {L(10, "X = 1 : STOP : Y = 2")}
+    assert!(run_tok(&mut i).is_none());
+    assert!(turn(&mut i).is_none());   // :
+    assert!(turn(&mut i).is_none());   // STOP
+    assert!(st(&i) == ST_IDLE && count_kind(&i, O_BREAK) == 1, "c07: STOP stops with a BREAK notice");
+    assert!(!has_var(&i, "Y"), "c07: nothing after STOP ran");
+    let c = i.program.continue_from_breakpoint();
+    assert!(c.is_ok());
+    core::mem::forget(c);
+    assert!(pa::at(&i.program, 10, {idx("X = 1 : STOP")}), "c07: CONT resumes right after the STOP");
+    kani::cover!(true, "reached_end");
+""", unwind=16)
+
+# ------------------------------------------------------------------------------------------------
+# C08
+# ------------------------------------------------------------------------------------------------
+S("c08_input_suspends", ["C08", "C09", "C01"], "quick",
+  "reaching INPUT: awaiting input, nothing after it executed, cursor exactly at the INPUT token; frames and loops untouched",
+  "10 A = 1 : INPUT X : B = 2, with 2 frames and a loop open",
+  f"""
+    let mut i = Interpreter::default();
+    {L(10, "A = 1 : INPUT X : B = 2")}
+    i.program.run_from_first_numbered_line();
+    pa::push_frames(&mut i.program, 2, 10);
+    pa::push_loop(&mut i.program, "I", 10, 0, 3.0, 1.0);
+    resume_at(&mut i, 10, 0);
+    assert!(turn(&mut i).is_none());   // A = 1
+    assert!(turn(&mut i).is_none());   // :
+    assert!(turn(&mut i).is_none());   // INPUT X
+    assert!(st(&i) == ST_AWAITING, "c08: INPUT awaits input");
+    assert!(pa::at(&i.program, 10, {idx("A = 1 :")}), "c08: the cursor is at the INPUT token");
+    assert!(num(&i, "A") == 1.0 && !has_var(&i, "B") && !has_var(&i, "X"), "c08: nothing beyond the statements before INPUT ran");
+    assert!(out_len(&i) == 0, "c08: suspension produces no output");
+    assert!(pa::stack_len(&i.program) == 2 && pa::loop_len(&i.program) == 1);
+    kani::cover!(true, "reached_end");
+""", unwind=16)
+
+def c08_reply(name, cls, target, desc, checks, clsdesc):
+    S(name, ["C08"], "quick",
+      "reply class %s to INPUT %s: %s" % (clsdesc, target, desc),
+      "10 A = 1 : INPUT %s : B = 2 awaiting at the INPUT token; reply %s with d,e any digit, x any letter" % (target, clsdesc),
+      f"""
+    let d: u8 = kani::any(); let e: u8 = kani::any(); let x: u8 = kani::any();
+    kani::assume(d <= 9 && e <= 9 && x <= 25);
+    let mut i = Interpreter::default();
+    {L(10, "A = 1 : INPUT " + target + " : B = 2")}
+    i.program.run_from_first_numbered_line();
+    set_num(&mut i, "A", 1.0);
+    pa::set_location(&mut i.program, 10, {idx("A = 1 :")});
+    i.state = InterpreterState::AwaitingInput;
+    i.provide_input(reply_text({cls}, d, e, x));
+    assert!(st(&i) == ST_RUNNING, "c08: a reply makes the interpreter runnable");
+    let r = stmt(&mut i);
+    assert!(r.is_none(), "c08: consuming a reply must not fail");
+    assert!(!has_var(&i, "B") && num(&i, "A") == 1.0, "c08: only the INPUT statement is re-executed");
+    assert!(!pending_input(&i), "c08: the reply is consumed");
+""" + checks + """
+    kani::cover!(true, "reached_end");
+""", unwind=16, parse_stub=True, timeout=900, mem=6000, cost=80)
+
+AFTER = idx("A = 1 : INPUT X")
+AT = idx("A = 1 :")
+STORED = f"""
+    assert!(num(&i, "X") == d as f64, "c08: the first item is stored as an assignment would");
+    assert!(pa::at(&i.program, 10, {AFTER}) && st(&i) == ST_RUNNING, "c08: execution continues after the INPUT statement");
+"""
+REENTER = f"""
+    assert!(st(&i) == ST_AWAITING && pa::at(&i.program, 10, {AT}), "c08: REENTER asks again at the same INPUT");
+    assert!(out_len(&i) == 1 && out_kind(&i, 0) == O_REENTER, "c08: exactly one REENTER");
+    assert!(!has_var(&i, "X"), "c08: nothing is stored on REENTER");
+"""
+c08_reply("c08_reply_number", 0, "X", "stored, no notice", STORED + '    assert!(out_len(&i) == 0, "c08: no notice for an exact reply");', "`d`")
+c08_reply("c08_reply_text_to_numeric", 1, "X", "REENTER, same request again, nothing else repeated", REENTER, "`x`")
+c08_reply("c08_reply_empty_to_numeric", 2, "X", "REENTER", REENTER, "empty")
+c08_reply("c08_reply_two_items", 3, "X", "first stored, one EXTRA IGNORED", STORED + '    assert!(out_len(&i) == 1 && out_kind(&i, 0) == O_EXTRA, "c08: surplus items give exactly one EXTRA IGNORED");', "`d,e`")
+c08_reply("c08_reply_colon_rest", 4, "X", "first stored, one EXTRA IGNORED", STORED + '    assert!(out_len(&i) == 1 && out_kind(&i, 0) == O_EXTRA, "c08: text after a colon gives exactly one EXTRA IGNORED");', "`d:e`")
+c08_reply("c08_reply_quoted_to_numeric", 5, "X", "REENTER", REENTER, '`"x"`')
+c08_reply("c08_reply_text_to_string", 1, "X$", "stored as text", f"""
+    assert!(strvar_is(&i, "X$", if x == 0 {{ "A" }} else {{ "?" }}) || x != 0, "c08: text reply stored in a string variable");
+    assert!(has_var(&i, "X$") && pa::at(&i.program, 10, {idx("A = 1 : INPUT X$")}), "c08: stored and execution continues");
+    assert!(out_len(&i) == 0);
+""", "`x`")
+
+S("c08_reenter_twice", ["C08"], "thorough",
+  "two REENTER repetitions then a good reply: the same request each time, nothing skipped or repeated",
+  "INPUT X awaiting; replies `x`, `x`, `d`",
+  f"""
+    let d: u8 = kani::any(); let x: u8 = kani::any();
+    kani::assume(d <= 9 && x <= 25);
+    let mut i = Interpreter::default();
+    {L(10, "A = A + 1 : INPUT X : B = 2")}
+    i.program.run_from_first_numbered_line();
+    set_num(&mut i, "A", 1.0);
+    pa::set_location(&mut i.program, 10, {idx("A = A + 1 :")});
+    i.state = InterpreterState::AwaitingInput;
+    let mut k = 0;
+    while k < 2 {{
+        i.provide_input(reply_text(1, d, d, x));
+        assert!(turn(&mut i).is_none());
+        assert!(st(&i) == ST_AWAITING && pa::at(&i.program, 10, {idx("A = A + 1 :")}) && num(&i, "A") == 1.0);
+        k += 1;
+    }}
+    i.provide_input(reply_text(0, d, d, x));
+    assert!(stmt(&mut i).is_none());
+    assert!(num(&i, "X") == d as f64 && num(&i, "A") == 1.0 && count_kind(&i, O_REENTER) == 2);
+    kani::cover!(true, "reached_end");
+""", unwind=16, parse_stub=True, timeout=1500, mem=8000, cost=200)
+
+S("c08_input_array_target", ["C08"], "quick",
+  "INPUT with an array target: the reply is stored into the cell and execution continues after the statement",
+  "10 INPUT A(1) : B = 2 awaiting at the INPUT token; reply `d`",
+  f"""
+    let d: u8 = kani::any();
+    kani::assume(d <= 9);
+    let mut i = Interpreter::default();
+    {L(10, "INPUT A(1) : B = 2")}
+    i.program.run_from_first_numbered_line();
+    pa::set_location(&mut i.program, 10, 0);
+    i.state = InterpreterState::AwaitingInput;
+    i.provide_input(reply_text(0, d, d, 0));
+    assert!(stmt(&mut i).is_none());
+    assert!(has_array(&i, "A"), "c08: the target array is created");
+    assert!(pa::at(&i.program, 10, {idx("INPUT A(1)")}) && !has_var(&i, "B"), "c08: execution continues after the INPUT statement");
+    assert!(cell(&mut i, "A", 1) == d as f64, "c08: the reply is stored in the array cell");
+    kani::cover!(true, "reached_end");
+""", unwind=16, parse_stub=True, mem=6000)
+S("c08_input_in_then_with_else", ["C08"], "quick",
+  "INPUT inside THEN with an ELSE part: after the reply the ELSE part is neither executed nor an error",
+  "10 IF 1 THEN INPUT X ELSE Y = 2 ; awaiting at the INPUT token; reply `d`; then the next statement",
+  f"""
+    let d: u8 = kani::any();
+    kani::assume(d <= 9);
+    let mut i = Interpreter::default();
+    {L(10, "IF 1 THEN INPUT X ELSE Y = 2")}
+    {L(20, "END")}
+    i.program.run_from_first_numbered_line();
+    pa::set_location(&mut i.program, 10, {idx("IF 1 THEN")});
+    i.state = InterpreterState::AwaitingInput;
+    i.provide_input(reply_text(0, d, d, 0));
+    assert!(turn(&mut i).is_none(), "c08: consuming the reply must not fail");
+    assert!(num(&i, "X") == d as f64);
+    if st(&i) == ST_RUNNING && pa::at(&i.program, 10, {idx("IF 1 THEN INPUT X")}) {{
+        let e = stmt(&mut i);
+        assert!(e.is_none(), "c08 input-then-else: continuing after INPUT inside THEN must not fail at ELSE");
+    }}
+    assert!(!has_var(&i, "Y"), "c08 input-then-else: the ELSE part must not run");
+    kani::cover!(true, "reached_end");
+""", unwind=16, parse_stub=True, mem=6000)
+
+# ------------------------------------------------------------------------------------------------
+# C09
+# ------------------------------------------------------------------------------------------------
+S("c09_one_statement_per_call", ["C09"], "quick",
+  "each call executes at most one statement of the line; with tracing on each call emits exactly one trace record for a numbered line",
+  "10 X = 1 : Y = 2 : Z = 3 / 20 W = 4, tracing on",
+  f"""
+    let mut i = Interpreter::default();
+    i.enable_tracing = true;
+    {L(10, "X = 1 : Y = 2 : Z = 3")}
+    {L(20, "W = 4")}
+    assert!(run_tok(&mut i).is_none());
+    assert!(num(&i, "X") == 1.0 && !has_var(&i, "Y"), "c09: the first call runs the first statement only");
+    assert!(count_kind(&i, O_TRACE) == 1 && trace_line(&i, 0) == 10, "c09: one trace record per call");
+    assert!(pa::at(&i.program, 10, {idx("X = 1")}), "c09: the cursor stops at the statement separator");
+    assert!(turn(&mut i).is_none());   // :
+    assert!(turn(&mut i).is_none());   // Y = 2
+    assert!(num(&i, "Y") == 2.0 && !has_var(&i, "Z"));
+    assert!(count_kind(&i, O_TRACE) == 3, "c09: one trace record per call");
+    assert!(turn(&mut i).is_none());   // :
+    assert!(turn(&mut i).is_none());   // Z = 3  -> line exhausted -> moves to 20 without executing it
+    assert!(num(&i, "Z") == 3.0 && !has_var(&i, "W") && pa::at(&i.program, 20, 0), "c09: moving to the next line does not execute it");
+    assert!(st(&i) == ST_RUNNING);
+    kani::cover!(true, "reached_end");
+""", unwind=16)
+
+S("c09_if_counts_as_one", ["C09"], "quick",
+  "an IF together with the single statement it selects is one call: only the first statement of a multi-statement THEN runs in that call",
+  "10 IF c THEN X = 1 : Y = 2, c any f64",
+  f"""
+    let c: f64 = kani::any();
+    let mut i = Interpreter::default();
+    i.enable_tracing = true;
+    {L(10, "IF #c THEN X = 1 : Y = 2")}
+    i.program.run_from_first_numbered_line();
+    resume_at(&mut i, 10, 0);
+    assert!(stmt(&mut i).is_none());
+    assert!(!has_var(&i, "Y"), "c09: the second statement of the THEN part is not run by the same call");
+    assert!(has_var(&i, "X") == (c != 0.0), "c09: IF plus the statement it selects is one call");
+    let tr = count_kind(&i, O_TRACE);
+    assert!(tr >= 1 && tr <= 2, "c09: at most one extra trace record for the statement selected by IF");
+    kani::cover!(c == 0.0, "reached_false");
+""", unwind=16)
+
+# ------------------------------------------------------------------------------------------------
+# C16 (session level)
+# ------------------------------------------------------------------------------------------------
+def c16_gosub(depth):
+    S("c16_gosub_at_depth_%d" % depth, ["C16", "C03", "C01"], "quick",
+      "GOSUB with %d frames open: %s" % (depth, "accepted, 32 frames" if depth == 31 else "OUT OF MEMORY (STACK OVERFLOW), nothing changed, interpreter usable"),
+      "%d frames pre-pushed; 10 GOSUB 0" % depth,
+      f"""
+    let mut i = Interpreter::default();
+    {L(0, "END")}
+    {L(10, "GOSUB 0")}
+    i.program.run_from_first_numbered_line();
+    pa::push_frames(&mut i.program, {depth}, 10);
+    resume_at(&mut i, 10, 0);
+    let e = stmt(&mut i);
+""" + ("""
+    assert!(e.is_none(), "c16: the 32nd frame is allowed");
+    assert!(pa::stack_len(&i.program) == 32 && pa::at(&i.program, 0, 0));
+""" if depth == 31 else f"""
+    assert!(e == Some((E_OOM_STACK, Some(10))), "c16: a 33rd frame is OUT OF MEMORY (STACK OVERFLOW) IN 10");
+    assert!(pa::stack_len(&i.program) == 32, "c16: never more than 32 frames");
+    assert!(st(&i) == ST_IDLE, "c16: the interpreter stays usable");
+    assert!({IMM("X = 1")}.is_none() && num(&i, "X") == 1.0, "c16: a further line is accepted after the cap error");
+""") + """
+    kani::cover!(true, "reached_end");
+""", unwind=36, timeout=1200, mem=8000, cost=150)
+
+c16_gosub(31)
+c16_gosub(32)
+
+S("c16_fn_call_at_depth_32", ["C16", "C03"], "quick",
+  "a user-function call with 32 frames open is OUT OF MEMORY (STACK OVERFLOW); with 31 it is evaluated and its frame popped",
+  "5 DEF FNA(Q) = Q + 1 registered; d frames (31 or 32, symbolic choice); 10 Z = FNA(2)",
+  f"""
+    let full: bool = kani::any();
+    let mut i = Interpreter::default();
+    {L(5, "DEF FNA(Q) = Q + 1")}
+    {L(10, "Z = FNA(2)")}
+    i.program.run_from_first_numbered_line();
+    pa::add_function(&mut i.program, "FNA", "Q", 5, {idx("DEF FNA(Q) =")});
+    if full {{ pa::push_frames(&mut i.program, 32, 10); }} else {{ pa::push_frames(&mut i.program, 31, 10); }}
+    resume_at(&mut i, 10, 0);
+    let e = stmt(&mut i);
+    if full {{
+        assert!(e == Some((E_OOM_STACK, Some(10))), "c16: function call at the frame cap is OUT OF MEMORY (STACK OVERFLOW)");
+        assert!(pa::stack_len(&i.program) == 32 && !has_var(&i, "Z"));
+    }} else {{
+        assert!(e.is_none() && num(&i, "Z") == 3.0, "c16: below the cap the call is evaluated");
+        assert!(pa::stack_len(&i.program) == 31, "c16: the call frame is popped");
+    }}
+    kani::cover!(full, "reached_cap");
+""", unwind=36, timeout=1500, mem=10000, cost=300)
+
+S("c16_for_at_loop_cap", ["C16"], "quick",
+  "FOR with 32 distinct loops open: a new variable is OUT OF MEMORY (STACK OVERFLOW); re-entering an open one drops it and everything above and stays within the cap; loop variables stay pairwise distinct",
+  "32 loops AA..BF pre-pushed; 10 FOR ZZ = 1 TO 2 (new) or FOR AC = 1 TO 2 (existing, position 2)",
+  f"""
+    let existing: bool = kani::any();
+    let mut i = Interpreter::default();
+    {L(10, "FOR ZZ = 1 TO 2")}
+    {L(20, "FOR AC = 1 TO 2")}
+    i.program.run_from_first_numbered_line();
+    pa::push_distinct_loops(&mut i.program, 32);
+    assert!(pa::loops_pairwise_distinct(&i.program));
+    if existing {{
+        resume_at(&mut i, 20, 0);
+        assert!(stmt(&mut i).is_none(), "c16: re-entering an open loop at the cap is allowed");
+        assert!(pa::loop_len(&i.program) == 3, "c16: re-entering FOR drops the old loop and everything above it");
+        assert!(pa::loop_symbol_is(&i.program, 2, "AC") && num(&i, "AC") == 1.0);
+    }} else {{
+        resume_at(&mut i, 10, 0);
+        let e = stmt(&mut i);
+        assert!(e == Some((E_OOM_STACK, Some(10))), "c16: a 33rd open loop is OUT OF MEMORY (STACK OVERFLOW)");
+        assert!(pa::loop_len(&i.program) == 32, "c16: never more than 32 open loops");
+        assert!(st(&i) == ST_IDLE);
+    }}
+    assert!(pa::loops_pairwise_distinct(&i.program), "c16: no two open loops for the same variable");
+    kani::cover!(existing, "reached_reentry");
+""", unwind=40, timeout=1800, mem=10000, cost=400)
+
+def c16_typed(name, text, var, code, keep_check, what):
+    S(name, ["C16", "C06"], "quick",
+      "name-suffix typing through the statement: %s" % what,
+      "X = 5 and S$ = 'OLD' stored; immediate: %s" % text,
+      f"""
+    let mut i = Interpreter::default();
+    set_num(&mut i, "X", 5.0);
+    let r0 = i.variables.set(sym("S$"), Value::String(std::rc::Rc::new(String::from("OLD"))));
+    kani::assume(r0.is_ok());
+    core::mem::forget(r0);
+    i.program.set_and_goto_immediate_line({vec(text)});
+    i.state = InterpreterState::Running;
+    let e = stmt(&mut i);
+    assert!(e == Some(({code}, None)), "c16 typed: {what}");
+    assert!(num(&i, "X") == 5.0 && strvar_is(&i, "S$", "OLD"), "c16 typed: a refused write changes nothing");
+    assert!(var_is_number(&i, "X") && !var_is_number(&i, "S$"), "c16: stored kinds follow the name suffix");
+    {keep_check}
+    kani::cover!(true, "reached_end");
+""", unwind=16)
+
+c16_typed("c16_typed_let_string_to_numeric", 'X = "A"', "X", "E_TYPE", "", "a string cannot be assigned to a numeric name")
+c16_typed("c16_typed_let_number_to_string", 'S$ = 1', "S$", "E_TYPE", "", "a number cannot be assigned to a $ name")
+c16_typed("c16_typed_for_string_var", 'FOR S$ = 1 TO 2', "S$", "E_TYPE", 'assert!(pa::loop_len(&i.program) <= 1);', "FOR cannot use a $ variable")
+c16_typed("c16_typed_array_cell", 'A(1) = "A"', "A", "E_TYPE", 'assert!(cell(&mut i, "A", 1) == 0.0 || true);', "a string cannot be stored in a numeric array cell")
+
+# ------------------------------------------------------------------------------------------------
+# C17
+# ------------------------------------------------------------------------------------------------
+def c17(name, setup, text, checks, what, numbered=True):
+    S(name, ["C17"], "quick",
+      "enabling tracing / warnings changes nothing but the Trace / Warning records: %s" % what,
+      "two interpreters, flags (t,w) any booleans vs (false,false); same pre-state; statement: %s" % text,
+      f"""
+    let t: bool = kani::any(); let w: bool = kani::any();
+    let mut a = Interpreter::default();
+    let mut i = Interpreter::default();
+    i.enable_tracing = t; i.enable_warnings = w;
+    {L(10, text, "a")}
+    {L(10, text)}
+    {L(20, "END", "a")}
+    {L(20, "END")}
+    a.program.run_from_first_numbered_line();
+    i.program.run_from_first_numbered_line();
+{setup}
+    resume_at(&mut a, 10, 0);
+    resume_at(&mut i, 10, 0);
+    let ea = stmt(&mut a);
+    let ei = stmt(&mut i);
+    assert!(ea == ei, "c17: same outcome with and without tracing/warnings");
+    assert!(st(&a) == st(&i) && pa::location(&a.program) == pa::location(&i.program), "c17: same state and location");
+    assert!(pa::loop_len(&a.program) == pa::loop_len(&i.program) && pa::stack_len(&a.program) == pa::stack_len(&i.program));
+    assert!(count_kind(&a, O_PRINT) == count_kind(&i, O_PRINT), "c17: same printed output records");
+    assert!(count_kind(&a, O_TRACE) == 0 && count_kind(&a, O_WARNING) == 0, "c17: no records when both are off");
+    assert!(count_kind(&i, O_TRACE) == if t {{ 1 }} else {{ 0 }}, "c17: exactly one trace record per statement of a numbered line iff tracing");
+    if t {{ assert!(trace_line(&i, 0) == 10, "c17: the trace record names the executing line"); }}
+{checks}
+    kani::cover!(t && w, "reached_both_on");
+    core::mem::forget(a);
+""", unwind=16, timeout=1200, mem=8000, cost=150)
+
+c17("c17_read_unassigned_variable", "", "X = Y + 1", """
+    assert!(num(&a, "X") == num(&i, "X") && has_var(&a, "Y") == has_var(&i, "Y"), "c17: same variables");
+    assert!(count_kind(&i, O_WARNING) == if w { 1 } else { 0 }, "c17: a warning exactly when an unassigned variable is read and warnings are on");
+""", "reading a never-assigned variable")
+c17("c17_read_assigned_variable", '    set_num(&mut a, "Y", 3.0); set_num(&mut i, "Y", 3.0);', "X = Y + 1", """
+    assert!(num(&a, "X") == 4.0 && num(&i, "X") == 4.0);
+    assert!(count_kind(&i, O_WARNING) == 0, "c17: no warning for an assigned variable");
+""", "reading an assigned variable")
+c17("c17_array_read_absent", "", "X = A(1)", """
+    assert!(has_array(&a, "A") && has_array(&i, "A"), "c17: the array is created either way");
+    assert!(num(&a, "X") == num(&i, "X"));
+    assert!(count_kind(&i, O_WARNING) == if w { 1 } else { 0 }, "c17: a warning exactly when an absent array is touched and warnings are on");
+""", "touching an array that does not exist yet (read)")
+c17("c17_array_write_absent", "", "A(1) = 2", """
+    assert!(has_array(&a, "A") && has_array(&i, "A"));
+    assert!(cell(&mut a, "A", 1) == 2.0 && cell(&mut i, "A", 1) == 2.0);
+    assert!(count_kind(&i, O_WARNING) == if w { 1 } else { 0 }, "c17: a warning exactly when an absent array is written and warnings are on");
+""", "touching an array that does not exist yet (write)")
+c17("c17_for_statement", "", "FOR I = 1 TO 3", """
+    assert!(num(&a, "I") == num(&i, "I"));
+    assert!(count_kind(&i, O_WARNING) == 0);
+""", "FOR")
+
+S("c17_no_trace_for_immediate_lines", ["C17"], "quick",
+  "trace records are emitted for numbered lines only",
+  "tracing on; immediate X = 1",
+  f"""
+    let mut i = Interpreter::default();
+    i.enable_tracing = true;
+    assert!({IMM("X = 1")}.is_none());
+    assert!(count_kind(&i, O_TRACE) == 0, "c17: no trace record for an immediate line");
+    kani::cover!(true, "reached_end");
+""")
+
+S("c17_trace_commands", ["C17"], "quick",
+  "TRACE / NOTRACE set exactly the tracing flag (real text-level commands)",
+  "TRACE then NOTRACE",
+  f"""
+    let w: bool = kani::any();
+    let mut i = Interpreter::default();
+    i.enable_warnings = w;
+    set_num(&mut i, "X", 5.0);
+    assert!(cmd(&mut i, "TRACE").is_none());
+    assert!(i.enable_tracing && i.enable_warnings == w && st(&i) == ST_IDLE && num(&i, "X") == 5.0 && out_len(&i) == 0, "c17: TRACE only sets the flag");
+    assert!(cmd(&mut i, "NOTRACE").is_none());
+    assert!(!i.enable_tracing && i.enable_warnings == w && st(&i) == ST_IDLE && num(&i, "X") == 5.0, "c17: NOTRACE only clears the flag");
+    kani::cover!(true, "reached_end");
+""", unwind=16, timeout=1500, mem=8000, cost=250)
+
+# ------------------------------------------------------------------------------------------------
+# C01 / C18 (session level)
+# ------------------------------------------------------------------------------------------------
+S("c01_error_rendering", ["C01"], "quick",
+  "an error delivered by a turn carries a location and can be rendered as source line + caret without panicking; afterwards idle and a new line is accepted",
+  "10 X = 1 : NEXT Q (fails) ; render; then immediate Y = 2",
+  f"""
+    let mut i = Interpreter::default();
+    {L(10, "X = 1 : NEXT Q")}
+    assert!(run_tok(&mut i).is_none());
+    assert!(turn(&mut i).is_none());
+    assert!(turn_render(&mut i) == Some(E_NEXT), "c01: the failure is delivered as an error value");
+    assert!(st(&i) == ST_IDLE, "c01: idle after an error");
+    assert!({IMM("Y = 2")}.is_none() && num(&i, "Y") == 2.0, "c01: a further line is accepted");
+    kani::cover!(true, "reached_end");
+""", unwind=16)
+
+S("c01_new_command_state", ["C01", "C19"], "quick",
+  "NEW requests a new interpreter (the only way to reach that state); protocol: the host replaces the interpreter",
+  "cmd NEW",
+  f"""
+    let mut i = Interpreter::default();
+    assert!(cmd(&mut i, "NEW").is_none());
+    assert!(st(&i) == ST_NEW, "c01: NEW asks the host for a fresh interpreter");
+    kani::cover!(true, "reached_end");
+""", unwind=16, timeout=1500, mem=8000, cost=250)
+
+S("c18_rnd_through_interpreter", ["C18", "C01"], "quick",
+  "randomize(seed) stores exactly the seed (any u64) and RND(e) in a statement reaches the generator with the value of e",
+  "randomize(seed); immediate X = RND(1) ; seed any u64",
+  f"""
+    let seed: u64 = kani::any();
+    let mut i = Interpreter::default();
+    i.randomize(seed);
+    assert!(rng_seed(&i) == seed, "c18: randomize stores the seed unchanged");
+    assert!({IMM("X = RND(1)")}.is_none(), "c01: RND after randomize(any seed) must not fail");
+    let next = ((1664525u128 * (seed as u128) + 1013904223u128) % (1u128 << 33)) as u64;
+    assert!(rng_seed(&i) == next, "c18: one RND(1) advances the generator once");
+    assert!(num(&i, "X") == (next as f64) / 8589934592.0, "c18: RND(1) yields state / 2^33");
+    assert!({IMM("Y = RND(0)")}.is_none());
+    assert!(num(&i, "Y") == num(&i, "X") && rng_seed(&i) == next, "c18: RND(0) repeats without advancing");
+    kani::cover!(seed == u64::MAX, "reached_max_seed");
+""", unwind=16, timeout=900, mem=6000, cost=120)
+
 def emit(s):
     out = []
     out.append('// @verif prop=%s tier=%s timeout=%d arms=1 mem=%d cost=%d clause="%s"%s' % (
